@@ -218,8 +218,8 @@ class BaseNode(Node):
         if isinstance(nodes, str):   # block import
             node.value_raw = nodes
         else:                        # node import
-            if node.value_slice and nodes[0].keyword=='str' and not nodes[0].dimension:
-                # text is sliced directly; arrays are sliced when the host casts the value
+            if node.value_slice and (node.keyword=='mod' or (nodes[0].keyword=='str' and not nodes[0].dimension)):
+                # text and modifications are sliced directly; arrays are sliced when the host definition casts the value
                 node.value_raw = nodes[0].raw_value(node.value_slice)
                 node.value_slice = None
             else:
